@@ -27,6 +27,10 @@ pub enum F {
 pub struct App {
     pub chain: Vec<F>,
     pub fails: bool,
+    /// the appender is a whole `log4rs::Logger` of its own (any `log::Log` is an appender) whose single appender
+    /// records the delivery; what that inner logger does with its own errors is its own business
+    #[serde(default)]
+    pub nested: bool,
 }
 
 #[derive(Serialize, Deserialize, Debug, Clone)]
@@ -143,7 +147,14 @@ pub fn check(case: &Case, obs: &mut Obs) -> CaseResult {
         for (mut run, single) in crate::glue::runs_by_style(boxed, case.style.rotate_left(ai as u32 * 7)) {
             ab = if single { ab.filter(run.pop().unwrap()) } else { ab.filters(run) };
         }
-        b = b.appender(ab.build(format!("app{}", ai), Box::new(FA { app: ai, fails: a.fails, io: case.same_io_error, logs: logs.clone() })));
+        let fa = FA { app: ai, fails: a.fails && !a.nested, io: case.same_io_error, logs: logs.clone() };
+        let appender: Box<dyn Append> = if a.nested {
+            let inner = Config::builder().appender(Appender::builder().build("inner", Box::new(fa))).build(Root::builder().appender("inner").build(log::LevelFilter::Trace)).unwrap();
+            Box::new(log4rs::Logger::new_with_err_handler(inner, Box::new(|_e: &anyhow::Error| {})))
+        } else {
+            Box::new(fa)
+        };
+        b = b.appender(ab.build(format!("app{}", ai), appender));
     }
     for (run, single) in crate::glue::runs_by_style((0..case.apps.len()).map(|ai| format!("app{}", ai)).collect(), case.style.rotate_left(41)) {
         root = if single { root.appender(run[0].clone()) } else { root.appenders(run) };
@@ -200,7 +211,7 @@ pub fn check(case: &Case, obs: &mut Obs) -> CaseResult {
             verdicts.push(delivered);
             if delivered {
                 exp_deliveries.push(ai);
-                if a.fails {
+                if a.fails && !a.nested {
                     exp_errors.push(if case.same_io_error { std::io::Error::from_raw_os_error(28).to_string() } else { format!("tag-{}-{}", ai, ri) });
                 }
             }
@@ -268,7 +279,7 @@ fn filter_strategy() -> impl Strategy<Value = F> {
 pub fn strategy() -> impl Strategy<Value = Case> {
     (
         prop_oneof![3 => Just(5u8), 1 => 0u8..6],
-        prop::collection::vec((prop::collection::vec(filter_strategy(), 0..=5), prop::bool::weighted(0.35)).prop_map(|(chain, fails)| App { chain, fails }), 1..=4),
+        prop::collection::vec((prop::collection::vec(filter_strategy(), 0..=5), prop::bool::weighted(0.35), prop::bool::weighted(0.2)).prop_map(|(chain, fails, nested)| App { chain, fails, nested }), 1..=4),
         prop::collection::vec(0u8..5, 1..=5),
         any::<u64>(),
         (prop::bool::weighted(0.15), prop::bool::weighted(0.3)),
@@ -317,8 +328,8 @@ fn sweep(run: &Run) {
         for fails in [false, true] {
             for pos in [0usize, 1] {
                 for companion_fails in [false, true] {
-                    let studied = App { chain: chain.clone(), fails };
-                    let companion = App { chain: vec![], fails: companion_fails };
+                    let studied = App { chain: chain.clone(), fails, nested: false };
+                    let companion = App { chain: vec![], fails: companion_fails, nested: !companion_fails && chain.len() % 2 == 1 };
                     let apps = if pos == 0 { vec![studied, companion] } else { vec![companion, studied] };
                     ok &= run.eval_one("chains-exhaustive", &Case { root_level: 5, style: fnv64(format!("{:?}", apps).as_bytes()), apps, records: vec![2], handler_panicked_before: false, same_io_error: false }, &check);
                 }
@@ -352,7 +363,7 @@ pub fn replay(part: &str, case: serde_json::Value) -> Option<CaseResult> {
 pub fn meta() -> EvidenceMeta {
     EvidenceMeta {
         level: "exploration",
-        rule: "cases = 1-4 appenders on the root, each with a chain of 0-5 filters (scripted Accept/Neutral/Reject that log their consultation, real ThresholdFilters at generated levels wrapped to observe the consultation) and a scripted outcome (Ok / Err(tag)), root level generated, 1-5 records at generated levels; plus exhaustive sweeps (121 chains <= 4 x failing/healthy x position x companion; threshold truth table). Oracle per appender independently: filters consulted = chain prefix up to and including the first non-Neutral answer, delivered iff that answer is Accept or none exists, another appender's rejection/error never changes this, error handler receives exactly the tags of failing delivered appenders once each; no consultation for records the logger does not admit. Chains may hold the library's ThresholdFilter unwrapped; in 30% of the cases every failing appender fails with the very same std::io::Error. Filters and appender references are attached through a mix of singular and bulk builder calls; in 15% of the cases the error handler of another logger panicked earlier on the thread (caught). non-trivial = >=2 appenders with different verdicts, or a failing appender before a healthy one, or an Accept before a Reject in one chain".into(),
+        rule: "cases = 1-4 appenders on the root, each with a chain of 0-5 filters (scripted Accept/Neutral/Reject that log their consultation, real ThresholdFilters at generated levels wrapped to observe the consultation) and a scripted outcome (Ok / Err(tag)), root level generated, 1-5 records at generated levels; plus exhaustive sweeps (121 chains <= 4 x failing/healthy x position x companion; threshold truth table). Oracle per appender independently: filters consulted = chain prefix up to and including the first non-Neutral answer, delivered iff that answer is Accept or none exists, another appender's rejection/error never changes this, error handler receives exactly the tags of failing delivered appenders once each; no consultation for records the logger does not admit. An appender may be a whole nested log4rs::Logger. Chains may hold the library's ThresholdFilter unwrapped; in 30% of the cases every failing appender fails with the very same std::io::Error. Filters and appender references are attached through a mix of singular and bulk builder calls; in 15% of the cases the error handler of another logger panicked earlier on the thread (caught). non-trivial = >=2 appenders with different verdicts, or a failing appender before a healthy one, or an Accept before a Reject in one chain".into(),
         assumptions: vec!["filters and appenders are harness implementations (plus the real ThresholdFilter)".into()],
         mutants_caught: vec![],
     }
